@@ -284,7 +284,7 @@ def main():
     chk.merge(core.parallel(shard, core.interleave(cases, core.NPROC * 4)))
     chk.assumptions += ["astropy Time/Quantity arithmetic", "clean=False with non-finite input is outside what the property fixes (skipped)",
                         "inputs whose observations are all non-finite are skipped (an empty RVData is not addressed by the property)"]
-    return chk.finish()
+    return chk.finish(run_case)
 
 
 def replay(doc):
